@@ -100,6 +100,36 @@ def runOp (s : Sexp) : String :=
           | e => showRes (showValT ty) e)
        | _ => "builderr")
     | _, _, _, _ => "bad-op"
+  -- (app cfg tydef tag val xPREFIX): Marshal(prefix, v)
+  | .list [.atom "app", cfgS, td, .atom tag, v, .atom pre, _, _] =>
+    match parseCfg cfgS, parseTyDef td, parseHexStr tag, parseVal v, parseHex pre with
+    | some c, some d, some t, some v, some pre =>
+      (match buildTop c d t with
+       | .ok ty => "ok " ++ hexOf (pre ++ marshal ty (coerceIn ty v))
+       | e => showRes (fun _ => "") e)
+    | _, _, _, _, _ => "bad-op"
+  -- (evolve cfg S S' val prior): data written as S, read as S'
+  | .list [.atom "evolve", cfgS, td, td2, v, prior] =>
+    match parseCfg cfgS, parseTyDef td, parseTyDef td2, parseVal v with
+    | some c, some d, some d2, some v =>
+      (match buildTop c d "", buildTop c d2 "" with
+       | .ok ty, .ok ty2 =>
+         let p := match prior with
+           | .atom "zero" => some ty2.zero
+           | s => (parseVal s).map (coerceIn ty2)
+         (match p with
+          | some p => showRes (showValT ty2) (unmarshal ty2 (marshal ty (coerceIn ty v)) p)
+          | none => "bad-op")
+       | _, _ => "builderr")
+    | _, _, _, _ => "bad-op"
+  -- (xdec cfgEnc cfgDec tydef val): written by one instance, read by another
+  | .list [.atom "xdec", cfgE, cfgD, td, v] =>
+    match parseCfg cfgE, parseCfg cfgD, parseTyDef td, parseVal v with
+    | some ce, some cd, some d, some v =>
+      (match buildTop ce d "", buildTop cd d "" with
+       | .ok tye, .ok tyd => showRes (showValT tyd) (unmarshal tyd (marshal tye (coerceIn tye v)) tyd.zero)
+       | _, _ => "builderr")
+    | _, _, _, _ => "bad-op"
   -- (laws cfg tydef tag val xTAGBYTES): Size, Append, Read-consumed on the codec itself
   | .list [.atom "laws", cfgS, td, .atom tag, v, .atom tb] =>
     match parseCfg cfgS, parseTyDef td, parseHexStr tag, parseVal v, parseHex tb with
@@ -123,11 +153,11 @@ def runOp (s : Sexp) : String :=
        | .ok ty =>
          let v := coerceIn ty v
          if marshal ty v == data then "ok" else
-         (match unmarshal ty data ty.zero, unmarshal ty (marshal ty v) ty.zero with
-          | .ok v1, .ok v2 =>
-            if showVal v1 == showVal v2 && marshal ty v1 == data then "ok"
+         (match unmarshal ty data ty.zero with
+          | .ok v1 =>
+            if marshal ty (reorderLike ty v1 v) == data then "ok"
             else s!"mismatch {hexOf (marshal ty v)}"
-          | _, _ => s!"mismatch {hexOf (marshal ty v)}")
+          | _ => s!"mismatch {hexOf (marshal ty v)}")
        | _ => "builderr")
     | _, _, _, _, _ => "bad-op"
   | _ => "bad-op"
